@@ -21,8 +21,8 @@ Wts  == {"segwit", "legacy"}
 Chains == {Chain("bitcoin", w, x, c) : w \in Wts, x \in 0..1, c \in 0..1}
 \* a second network with the coin type of the first one (must be refused) and one with another coin type
 Foreign == {Chain("regtest", "segwit", 0, 0), Chain("litecoin", "segwit", 0, 0)}
-Req(op, c, n, i) == [op |-> op, net |-> c.net, wt |-> c.wt, acct |-> c.acct, ch |-> c.ch, n |-> n, idx |-> i, form |-> "args"]
-NoReq == [op |-> "none", net |-> "", wt |-> "", acct |-> 0, ch |-> 0, n |-> 0, idx |-> 0, form |-> ""]
+Req(op, c, n, i) == [op |-> op, net |-> c.net, wt |-> c.wt, acct |-> c.acct, ch |-> c.ch, n |-> n, idx |-> i, form |-> "args", acctin |-> "arg"]
+NoReq == [op |-> "none", net |-> "", wt |-> "", acct |-> 0, ch |-> 0, n |-> 0, idx |-> 0, form |-> "", acctin |-> ""]
 
 Injective(S, n) == {q \in [1..n -> S] : Distinct(q)}
 Outs(st, a) ==
